@@ -53,6 +53,14 @@ Y24 the values of a `**kwargs` dictionary made into a tuple / list: their order 
     the caller happened to write the keywords in, not the order of the class's statistics.
 Y25 a parameter with default None is re-bound only under `p is None` (or from itself): what the
     caller passed is what is used.
+Y26 a "something changed" flag of a fixpoint loop (reset to False at the top of the round, tested at
+    the end) is only ever *raised* inside the round (`flag = True`, `flag = flag or ...`): assigned a
+    computed value, a later item resets what an earlier item raised.
+Y27 a value that can no longer be None (`tuple(...)`, `x or ()`) is tested `is None` right after: the
+    "does not apply" answer has been turned into a value and the test is dead.
+Y28 a function taking `**kwargs` that delegates to a method of its own name passes them on.
+Y29 a collection that is created inside a loop, filled in that loop and read after it holds the
+    last round only.
 Y10 a copy / pickle hook (`__getstate__`, `__setstate__`, `__reduce__`, `__copy__`, `__deepcopy__`)
     that does anything but carry the whole instance dictionary over.
 """
@@ -426,6 +434,14 @@ def run(ctx, modules: Tuple[str, ...]) -> None:
                 a0, b0 = n.left, n.comparators[0]
                 if any(isinstance(x, ast.Constant) and (x.value is None or isinstance(x.value, bool) or x.value is Ellipsis) for x in (a0, b0)):
                     continue
+                def _classish(e: ast.AST) -> bool:
+                    # combinatorial classes are values too: equal classes are built again and again by the strategies
+                    return (isinstance(e, ast.Attribute) and e.attr == "comb_class") or \
+                        (isinstance(e, ast.Subscript) and isinstance(e.value, (ast.Name, ast.Attribute)) and norm(e.value).split(".")[-1] in ("children", "non_empty_children"))
+                if _classish(a0) or _classish(b0):
+                    ctx.violation("Y14", n, f"{fi.qualname} compares combinatorial classes by identity (`{norm(n)[:60]}`): a strategy builds its children anew, so an equal class is "
+                                  "a different object and the test never holds")
+                    continue
                 if _valueish(a0) or _valueish(b0):
                     ctx.violation("Y14", n, f"{fi.qualname} compares values by identity (`{norm(n)[:60]}`): two equal ints / strings / tuples are the same object only by accident "
                                   "(small-int and literal caching), so the test fails for labels above 256 or values that were computed rather than copied")
@@ -556,6 +572,71 @@ def run(ctx, modules: Tuple[str, ...]) -> None:
                         continue
                     ctx.violation("Y25", st, f"{fi.qualname} re-binds its parameter `{t.id}` (`{norm(st)[:60]}`) whether or not the caller passed one: the `{t.id}` that was given "
                                   "is ignored, and what is computed in its place need not be the same")
+        # ---------------------------------------------------------------- Y26 (fixpoint flag only raised)
+        for w_ in walk_local(f):
+            if not isinstance(w_, (ast.While,)):
+                continue
+            resets = [st for st in w_.body if isinstance(st, ast.Assign) and len(st.targets) == 1 and isinstance(st.targets[0], ast.Name)
+                      and isinstance(st.value, ast.Constant) and st.value.value is False]
+            for rs in resets:
+                flag = rs.targets[0].id
+                tested = any(isinstance(x, ast.Name) and x.id == flag and isinstance(x.ctx, ast.Load) for st in w_.body for x in ast.walk(st)) or \
+                    (isinstance(w_.test, ast.Name) and w_.test.id == flag)
+                if not tested:
+                    continue
+                for st in [x for b_ in w_.body for x in ast.walk(b_)]:
+                    if isinstance(st, ast.Assign) and st is not rs and len(st.targets) == 1 and isinstance(st.targets[0], ast.Name) and st.targets[0].id == flag:
+                        v_ = st.value
+                        raised = (isinstance(v_, ast.Constant) and v_.value is True) or any(isinstance(x, ast.Name) and x.id == flag for x in ast.walk(v_))
+                        if not raised and C.enclosing_loops(f, st) and C.enclosing_loops(f, st)[0] is not w_:
+                            ctx.violation("Y26", st, f"{fi.qualname}: the flag `{flag}` of the fixpoint loop is assigned `{norm(v_)[:50]}` inside the round: an item handled later "
+                                          "sets it back to False after an earlier item raised it, and the loop stops although something changed (the result depends on the order "
+                                          "of the items)")
+        # ---------------------------------------------------------------- Y27 (None made into a value, then tested)
+        for blk_ in [b for node_ in [f] + list(walk_local(f)) for fld in ("body", "orelse") for b in [getattr(node_, fld, None)] if isinstance(b, list)]:
+            for j_, st in enumerate(blk_):
+                if not (isinstance(st, ast.Assign) and len(st.targets) == 1):
+                    continue
+                v_ = st.value
+                never_none = (isinstance(v_, ast.Call) and isinstance(v_.func, ast.Name) and v_.func.id in ("tuple", "list", "set", "frozenset", "dict") and v_.args
+                              and isinstance(v_.args[0], ast.BoolOp) and isinstance(v_.args[0].op, ast.Or)) or \
+                    (isinstance(v_, ast.BoolOp) and isinstance(v_.op, ast.Or) and isinstance(v_.values[-1], (ast.Tuple, ast.List, ast.Dict, ast.Constant))
+                     and not (isinstance(v_.values[-1], ast.Constant) and v_.values[-1].value is None))
+                if not never_none:
+                    continue
+                ttxt = norm(st.targets[0])
+                for nx in blk_[j_ + 1:j_ + 3]:
+                    if isinstance(nx, ast.If) and isinstance(nx.test, ast.Compare) and len(nx.test.ops) == 1 and isinstance(nx.test.ops[0], ast.Is) \
+                            and norm(nx.test.left) == ttxt and isinstance(nx.test.comparators[0], ast.Constant) and nx.test.comparators[0].value is None:
+                        ctx.violation("Y27", st, f"{fi.qualname}: `{norm(st)[:70]}` can no longer be None, and the next statement tests `{ttxt} is None`: the answer None (\"does not "
+                                      "apply\") has been turned into an empty value, the test is dead, and what used to be refused is now taken for a result without children")
+        # ---------------------------------------------------------------- Y28 (keyword arguments passed on by a delegate)
+        if kwname:
+            for c in walk_local(f):
+                if isinstance(c, ast.Call) and isinstance(c.func, ast.Attribute) and c.func.attr == fi.name and not (isinstance(c.func.value, ast.Call) and norm(c.func.value.func) == "super"):
+                    if not any(k.arg is None and isinstance(k.value, ast.Name) and k.value.id == kwname for k in c.keywords):
+                        ctx.violation("Y28", c, f"{fi.qualname} takes `**{kwname}` and hands the question on to `{norm(c.func)[:50]}` without them: the statistics the caller asked "
+                                      "for are dropped on the way")
+        # ---------------------------------------------------------------- Y29 (accumulator created inside the loop)
+        for lp_ in walk_local(f):
+            if not isinstance(lp_, (ast.For, ast.While)):
+                continue
+            for st in lp_.body:
+                if not isinstance(st, (ast.Assign, ast.AnnAssign)):
+                    continue
+                t_ = st.targets[0] if isinstance(st, ast.Assign) else st.target
+                v_ = st.value
+                if not (isinstance(t_, ast.Name) and v_ is not None and _mutable_value(v_)):
+                    continue
+                nm_ = t_.id
+                filled = any(isinstance(c, ast.Call) and isinstance(c.func, ast.Attribute) and c.func.attr in MUTATORS and isinstance(c.func.value, ast.Name) and c.func.value.id == nm_
+                             for b_ in lp_.body for c in ast.walk(b_))
+                after = [x for x in walk_local(f) if isinstance(x, ast.Name) and x.id == nm_ and isinstance(x.ctx, ast.Load) and x.lineno > (lp_.end_lineno or lp_.lineno)]
+                bound_outside = [s_ for s_ in walk_local(f) if isinstance(s_, (ast.Assign, ast.AnnAssign)) and not any(s_ is y for y in ast.walk(lp_))
+                                 and any(isinstance(tt, ast.Name) and tt.id == nm_ for tt in (s_.targets if isinstance(s_, ast.Assign) else [s_.target]))]
+                if filled and after and not bound_outside and not C.enclosing_loops(f, lp_):
+                    ctx.violation("Y29", st, f"{fi.qualname} creates `{nm_}` anew in every round of the loop, fills it there and reads it after the loop (`{norm(C.stmt_of(after[0]))[:50]}`): "
+                                  "what is read is what the *last* round collected; the earlier rounds' entries are gone")
         # ---------------------------------------------------------------- Y12 (isinstance order)
         def _isinst(t: ast.AST) -> Optional[Tuple[str, List[str]]]:
             if isinstance(t, ast.Call) and isinstance(t.func, ast.Name) and t.func.id == "isinstance" and len(t.args) == 2:
@@ -695,6 +776,35 @@ def run(ctx, modules: Tuple[str, ...]) -> None:
                 if whole:
                     ctx.violation("Y7", st, f"{fi.qualname} remembers `{norm(st.value)[:50]}` under `{ktxt}` across the rounds of its loop: the key is made from `{r_}.{a_}` only, "
                                   f"the value is asked of `{r_}` as a whole -- another `{r_}` with the same `{a_}` is answered with what was computed for the first")
+        # a memo in a module-level table keyed by one entry of a dictionary argument while the value is computed from several
+        for st in walk_local(f):
+            if not (isinstance(st, ast.Assign) and len(st.targets) == 1 and isinstance(st.targets[0], ast.Subscript) and isinstance(st.targets[0].value, ast.Name)
+                    and st.targets[0].value.id in module_containers.get(fi.module.short, set())):
+                continue
+            mname = st.targets[0].value.id
+            ktxt = norm(st.targets[0].slice)
+            reads = [c for c in walk_local(f) if (isinstance(c, ast.Call) and isinstance(c.func, ast.Attribute) and c.func.attr == "get" and norm(c.func.value) == mname and c.args
+                                                   and norm(c.args[0]) == ktxt)
+                     or (isinstance(c, ast.Compare) and len(c.ops) == 1 and isinstance(c.ops[0], (ast.In, ast.NotIn)) and norm(c.left) == ktxt and norm(c.comparators[0]) == mname)]
+            if not reads:
+                continue
+
+            def _entries(e: ast.AST, depth: int = 0) -> Set[str]:
+                out: Set[str] = set()
+                for x in ast.walk(e):
+                    if isinstance(x, ast.Subscript) and isinstance(x.value, ast.Name) and x.value.id in fparams and isinstance(x.slice, ast.Constant):
+                        out.add(norm(x))
+                    elif isinstance(x, ast.Name) and depth < 4 and x.id not in fparams:
+                        for d in D.definitions(f).get(x.id, []):
+                            if d[1] is not None and d[1] is not e:
+                                out |= _entries(d[1], depth + 1)
+                return out
+            kdeps = _entries(st.targets[0].slice)
+            vdeps = _entries(st.value)
+            extra = sorted(vdeps - kdeps)
+            if kdeps and extra:
+                ctx.violation("Y7", st, f"{fi.qualname} remembers `{norm(st.value)[:40]}` in the module-level table `{mname}` under `{ktxt}`, but it is computed from {extra} as well: "
+                              f"the next argument with the same `{ktxt}` and another {extra[0]} gets what was remembered for the first")
         # ---------------------------------------------------------------- Y6
         for n in walk_local(f):
             key = None
